@@ -123,7 +123,9 @@ def judge(ctx, inst, label, spaces, ret, T, MF, MR):
         if fn == 'solvation_potential' and arg == 'closure=PY':
             # a non-positive 1 + CSC at one k makes the whole back-transform undefined
             if not mask.all():
+                ctx.skip('solvation_potential(PY) with 1 + CSC <= 0 at some k (not judged)')
                 return []
+            ctx.notes['py_solvation_judged'] = ctx.notes.get('py_solvation_judged', 0) + 1
         if not np.all(np.isfinite(got[mask])):
             bad.append(('Definition.' + fn, {'what': 'non-finite value'}))
         else:
@@ -216,7 +218,7 @@ def run(ctx):
                         'spinodal_condition(extrapolate=False): extrapolated limit or lowest-k value both accepted']
     dk = math.pi / (DR * L)
     MF, MR = dense_transforms(L, DR, dk, FWD, BWD)
-    plans = [(2, [1, 2, 3]), (3, [1, 2, 3]), (4, [1, 2])] if not thorough else [(2, range(1, 41)), (3, range(1, 31)), (4, range(1, 17))]
+    plans = [(2, [1, 2, 3, 101, 102]), (3, [1, 2, 3, 101, 102]), (4, [1, 2, 101])] if not thorough else [(2, list(range(1, 41)) + list(range(101, 121))), (3, list(range(1, 31)) + list(range(101, 117))), (4, list(range(1, 17)) + list(range(101, 109)))]
     for rank, seeds in plans:
         res = run_tlc('MC_Calculate', cfg(rank, list(seeds)), ctx.tmp, seed=ctx.seed)
         require_clean(res, 'Calculate rank %d' % rank)
